@@ -1,6 +1,7 @@
 import Uft.Model.Events
 import Uft.Model.CallTree
 import Uft.Lemmas.Events
+import Uft.Lemmas.EventsWatch
 /-
 C17 — Read-trigger and watchpoint events are placed and valued consistently.
 
@@ -251,6 +252,97 @@ theorem c17_event_times_inside (cfg : ECfg) (s : ESt) (b : Frame) (ri : Nat) (o 
 /-- the hypothesis is needed: a 1 ns call whose entry hook makes the thread's first observation gets
     its watch event stamped with the exit time, so it is written after the EXIT record -/
 example : watchTime { addr := 1, start := 1000, depth := 0 } false = 1001 := by decide
+
+/-! ### the whole stream with watchpoints
+
+`specWCalls` threads the watch state (first observation made?, last cpu, the thread's copies of the
+variables, the global items) through the history in hook order and lists, per call:
+  the entry hook's watch events, ENTRY, the read events        (first observation: ENTRY, reads, events)
+  the callees
+  the exit hook's watch events, the diff events, EXIT.
+The hooks write lazily (ENTRY records and pending watch events wait for the next record that is
+written); the theorem says the stream nevertheless comes out in exactly this order, provided
+consecutive hooks are at least 2 ns apart (`spaced`, the duration the -1 / +2 rule needs) and no
+pending-event overflow happens (`roomCalls`: at every hook MAX_EVENT leaves room for one event per
+watch source). -/
+
+/-- `c17_emit_exact_watch`: any call forest, any watchpoints (cpu, variables), read triggers,
+    arguments, both hook flavours, from a fresh thread. -/
+theorem c17_emit_exact_watch (cfg : ECfg) (hp : PlainW cfg) (k : Kind) (cs : ECalls) (vars : List Nat)
+    (glob : List (Option Nat)) (tl : Nat)
+    (hm : cs.height ≤ cfg.base.maxStack) (hd : cs.height ≤ cfg.base.depthOpt) (hsp : cs.spaced tl)
+    (hroom : roomCalls cfg k (ESt.init cfg vars glob) cs)
+    (hmin : cfg.base.minSize = 0) (hen : cfg.base.enabled0 = true) :
+    (runECalls cfg k (ESt.init cfg vars glob) cs).out = (specWCalls cfg k 0 (ESt.init cfg vars glob) cs).1 ∧
+    (runECalls cfg k (ESt.init cfg vars glob) cs).frames = [] ∧
+    (runECalls cfg k (ESt.init cfg vars glob) cs).pend = [] := by
+  have hg : GoodW (ESt.init cfg vars glob) 0 tl := by
+    refine ⟨?_, ?_, ?_, ?_⟩
+    · constructor <;> simp [ESt.init, hmin, hen, NoSkipE]
+    · simp [ESt.init]
+    · simp [ESt.init]
+    · simp [ESt.init]
+  obtain ⟨h1, h2, h3, _⟩ := emitW_calls cfg hp k cs (ESt.init cfg vars glob) (ESt.init cfg vars glob) 0 tl hg
+    (SameWatch.refl _) (by omega) (by omega) hsp hroom
+  refine ⟨?_, ?_, ?_⟩
+  · rw [h1]; cases cs <;> simp [ESt.init, owed, flushBelowE]
+  · rw [h2]; cases cs <;> simp [ESt.init, markToE]
+  · rw [h3]; cases cs <;> simp [ESt.init]
+
+example : PlainW ({ watchCpu := true, varSizes := [8, 1], read := fun _ => 2 } : ECfg) := by
+  constructor
+  · constructor <;> simp [ASYNC_IDX, Gen.EventTab.ASYNC_IDX]
+  · rfl
+
+example : (ECalls.cons (.node 1 10 50 {} {} (.cons (.node 2 20 40 {} {} .nil) .nil)) .nil).spaced 0 := by
+  simp [ECalls.spaced, ECall.spaced, ECalls.last, ECall.lastT]
+
+example : roomCalls ({ watchCpu := true } : ECfg) .pg (ESt.init { watchCpu := true } [] [])
+    (.cons (.node 1 10 50 {} {} (.cons (.node 2 20 40 {} {} .nil) .nil)) .nil) := by
+  simp only [roomCalls, roomCall]
+  decide
+
+/-- `c17_watch_stream_iff_change` (`-W cpu`): the watch events the stream shows for a hook are
+    `wEvents` in the watch state reached so far; for `-W cpu` that is one event carrying the cpu
+    if this is the thread's first observation or the cpu differs from the one observed at the
+    previous hook (`wNext … .wcpu` is always the cpu just observed), and nothing otherwise. -/
+theorem c17_watch_stream_iff_change (cfg : ECfg) (hc : cfg.watchCpu = true) (hv : cfg.varSizes = []) (w : ESt)
+    (b : Frame) (ri : Nat) (o : Obs) :
+    wEvents cfg w b ri o =
+      (if w.winited = false ∨ w.wcpu ≠ some o.cpu then [cpuEv (watchTime b w.winited) (watchTag cfg ri) o.cpu] else []) ∧
+    (wNext cfg w b ri o).wcpu = some o.cpu ∧ (wNext cfg w b ri o).winited = true :=
+  wEvents_cpu cfg hc hv w b ri o
+
+/-- `c17_events_keep_nesting` with watchpoints: taking the events out of the stream leaves exactly the
+    eager ENTRY/EXIT trace of the history. -/
+theorem c17_events_keep_nesting_watch (cfg : ECfg) (hp : PlainW cfg) (k : Kind) (cs : ECalls) (vars : List Nat)
+    (glob : List (Option Nat)) (tl : Nat)
+    (hm : cs.height ≤ cfg.base.maxStack) (hd : cs.height ≤ cfg.base.depthOpt) (hsp : cs.spaced tl)
+    (hroom : roomCalls cfg k (ESt.init cfg vars glob) cs)
+    (hmin : cfg.base.minSize = 0) (hen : cfg.base.enabled0 = true) :
+    (runECalls cfg k (ESt.init cfg vars glob) cs).out.filterMap recOf = evCalls 0 cs.erase := by
+  rw [(c17_emit_exact_watch cfg hp k cs vars glob tl hm hd hsp hroom hmin hen).1, recsW_specCalls]
+
+/-- `c17_event_times_inside_stream`: in the specified (= written, `c17_emit_exact_watch`) stream, a call
+    [t0, t1] appears as  B ++ [ENTRY] ++ I ++ [EXIT]  where every element of I — its own read, diff and
+    watch events and all records of its callees — carries a time stamp in [t0, t1], and B, the watch
+    events saved by its entry hook (empty for the thread's first observation), carry t0 - 1: they lie
+    in the caller's interval.  Hypothesis: hooks at least 2 ns apart. -/
+theorem c17_event_times_inside_stream (cfg : ECfg) (k : Kind) (d : Nat) (w : ESt) (f t0 t1 : Nat) (oE oX : Obs)
+    (kids : ECalls) (tl : Nat) (hsp : (ECall.node f t0 t1 oE oX kids).spaced tl) :
+    (specWCall cfg k d w (.node f t0 t1 oE oX kids)).1 =
+      beforeOf cfg k d w (.node f t0 t1 oE oX kids) ++
+        [.record { time := t0, type := 0, depth := d, addr := f } (argPayload cfg k f)] ++
+        innerOf cfg k d w (.node f t0 t1 oE oX kids) ++
+        [.record { time := t1, type := 1, depth := d, addr := f } (retPayloadOf cfg k f)] ∧
+    (∀ x ∈ innerOf cfg k d w (.node f t0 t1 oE oX kids), t0 ≤ x.time ∧ x.time ≤ t1) ∧
+    (∀ x ∈ beforeOf cfg k d w (.node f t0 t1 oE oX kids), x.time + 1 = t0 ∧ tl < x.time) := by
+  obtain ⟨h1, h2⟩ := inner_times cfg k d w f t0 t1 oE oX kids tl hsp
+  refine ⟨specWCall_shape cfg k d w f t0 t1 oE oX kids, h1, ?_⟩
+  intro x hx
+  have := h2 x hx
+  simp only [ECall.spaced] at hsp
+  omega
 
 /-! ## Part 3: calls dropped by the time filter -/
 
